@@ -118,6 +118,16 @@ var c08ArgShapes = []string{
 	fmt.Sprintf("%q", "$"+canaryEnv),
 	fmt.Sprintf("%q", "${"+canaryEnv+"}"),
 	fmt.Sprintf("(raw %q)", "@"+canaryFile),
+	// a path or name in second position behind each kind of first argument (encoders with an optional destination,
+	// conversions with an optional zone or locale name ...); relative names too
+	fmt.Sprintf("(hash a: 1) %q", canaryDir+"/new.txt"),
+	fmt.Sprintf("[1 2] %q", canaryDir+"/new.txt"),
+	fmt.Sprintf("(list 1) %q", canaryDir+"/new.txt"),
+	fmt.Sprintf("(now) %q", "secret.txt"),
+	fmt.Sprintf("(now) %q", "../"+"secret.txt"),
+	fmt.Sprintf("%q %q", "2024-01-02T03:04:05Z", "Canary/Zone"),
+	fmt.Sprintf("(raw %q) %q", "ab", canaryDir+"/new.txt"),
+	fmt.Sprintf("%q %q", canaryDir+"/new.txt", canaryDir+"/new2.txt"),
 }
 
 var c08Routes = []string{"direct", "alias", "apply", "map", "eval", "macro", "infix", "thread", "dot"}
